@@ -847,9 +847,13 @@ def _merging(ctx: Ctx) -> None:
                             rets[0].value.func) == "Instance":
                         a = [inline_locals(fi.node, x_)
                              for x_ in rets[0].value.args]
-                        okr = len(a) >= 5 and src(a[0]) == \
-                            f"np.array({rows})" and maps is not None and \
-                            maps in src(a[4])
+                        m_ok, m_why = _matrix_arg(a[0], rows or "?", src) \
+                            if a else (False, "")
+                        okr = len(a) >= 5 and m_ok and maps is not None \
+                            and maps in src(a[4])
+                        if a and not m_ok and m_why:
+                            problems.append(m_why)
+                            okr = True      # reported with its own reason
                     if not okr:
                         problems.append("the instance is not built from "
                                         "the reduced distance matrix and "
@@ -869,6 +873,35 @@ def _merging(ctx: Ctx) -> None:
            "representative is recorded with its own index" if not problems
            else "; ".join(dict.fromkeys(problems)),
            construct="merging protocol")
+
+
+_INT_TYPES = {"DEFAULT_INT", "DEFAULT_UNSIGNED_INT", "int", "np.int64",
+              "np.int32", "np.uint64", "np.int_", "np.intp", "'int'",
+              "'int64'", "np.uint32", "np.int16", "np.int8"}
+_FLOAT_TYPES = {"float", "np.float64", "DEFAULT_FLOAT", "'float'",
+                "'float64'", "np.double", "np.float_"}
+
+
+def _matrix_arg(e: ast.expr, rows: str, src: Any) -> tuple[bool, str]:
+    """Is `e` the list of distance rows turned into a matrix without
+    changing the distances?  (ok, reason when definitely not)"""
+    if src(e) == rows:
+        return True, ""
+    if isinstance(e, ast.Call) and src(e.func) in (
+            "np.array", "np.asarray", "numpy.array", "numpy.asarray") and \
+            e.args and src(e.args[0]) == rows:
+        dt = e.args[1] if len(e.args) > 1 else next(
+            (k.value for k in e.keywords if k.arg == "dtype"), None)
+        if dt is None or src(dt) in _FLOAT_TYPES:
+            return True, ""
+        if src(dt) in _INT_TYPES:
+            return False, (
+                f"the distance rows are converted with `{src(e)}`: a "
+                "real-valued distance is cut down to its integer part "
+                "before the neighbours are ranked, so differently distant "
+                "neighbours tie and the horizon cuts at the wrong object")
+        return False, ""
+    return False, ""
 
 
 def _inner_rounds(repo: Any, fi: FuncInfo, ie: Any, q: Any, data: str,
